@@ -395,9 +395,41 @@ func init() {
 			{Name: "requery", N: func(c *Ctx) int { return tierN(c, 20000, 3000000) }, Run: c18Run},
 			{Name: "extremes", N: func(c *Ctx) int { return tierN(c, 3000, 60000) }, Run: c18Extremes},
 			{Name: "big-shared", N: func(c *Ctx) int { return tierN(c, 4000, 200000) }, Run: c18BigShared},
+			{Name: "requery-aliasing", N: func(c *Ctx) int { return 3 * len(c07Directed()) }, Run: c18Aliasing, Exhaustive: true},
 			{Name: "deep", N: c18DeepN, Run: c18Deep, Exhaustive: true},
 			{Name: "literal-results", N: func(c *Ctx) int { return tierN(c, 4000, 200000) }, Run: c18Literals},
 			{Name: "null-elements", N: func(c *Ctx) int { return tierN(c, 3000, 60000) }, Run: c18Nulls},
 		},
 	})
+}
+
+// c18Aliasing: a result handed back as input is searched by expressions that pass one of its arrays
+// to an ordering / reversing / merging builtin in every way that involves no copy (the directed list
+// shared with C06/C07: fields, [*], [:], pipes, lets, not_null, to_array, a string slice handing on
+// $.member, ...).  r1 = Search(e1, d) shares structure with d; Search(e2, r1), asked twice, must both
+// times equal Search("(e1) | (e2)", d') on a pristine copy d' - a builtin that reorders its argument in
+// place answers differently the second time.
+func c18Aliasing(c *Ctx, idx int) {
+	dir := c07Directed()
+	e2 := dir[idx%len(dir)]
+	e1 := []string{"@", "{label: label, nums: nums, strs: strs, recs: recs, nested: nested, objs: objs, big: big, bigbad: bigbad, bigstrs: bigstrs, bignums: bignums}", "merge(@, {extra: `1`})"}[idx/len(dir)]
+	d, _ := ref.FromJSON(c07DirectedDoc)
+	doc := ref.ToGo(d, ref.JSONNumber)
+	l1 := c.LibSearch(e1, doc)
+	if l1.Err != nil || l1.Panic != nil {
+		return
+	}
+	piped := "(" + e1 + ") | (" + e2 + ")"
+	want := c.LibSearch(piped, ref.ToGo(d, ref.JSONNumber))
+	for call := 1; call <= 2; call++ {
+		got := c.LibSearch(e2, l1.Res)
+		if got.Panic != nil || want.Panic != nil {
+			return
+		}
+		if !MultiFaultOK(ref.Search(piped, d), want, got) && !SameOutcome(want, got, Enumerates(e2)) {
+			c.Report(Violation{Rule: "C18/requery", Expr: piped, Data: clipS(c07DirectedDoc, 300), Got: clipS(ShowOut(got), 300) + fmt.Sprintf("  (Search(e2, r1), call %d)", call), Want: clipS(ShowOut(want), 300), Features: map[string]string{"stream": "requery-aliasing"}})
+			break
+		}
+	}
+	c.Nontrivial(e1, e2)
 }
